@@ -146,6 +146,7 @@ type vpCfg struct {
 	Logging              bool   `json:"logging"` // request / auth / standard logging enabled (written to a discarding writer)
 	ProxyWebSocketsOff   bool   `json:"proxyWebSocketsOff"`
 	SkipIssuerCheck      bool   `json:"skipIssuerCheck"`
+	LoginParams          bool   `json:"loginParams"` // the loginURLParameters rule set of spec/StartParams.tla
 	shareRedis *miniredis.Miniredis `json:"-"`
 	shareIdP   *vpIdP               `json:"-"`
 }
@@ -596,6 +597,16 @@ func vpNewWorld(cfg *vpCfg) (*vpWorld, error) {
 		for i := range opts.Providers {
 			opts.Providers[i].OIDCConfig.EmailClaim = ""
 			opts.Providers[i].OIDCConfig.GroupsClaim = ""
+		}
+	}
+	if cfg.LoginParams {
+		consent, selAcc, hint := "consent", "select_account", `^[a-z]+@example\.com$`
+		for i := range opts.Providers {
+			opts.Providers[i].LoginURLParameters = []options.LoginURLParameter{
+				{Name: "prompt", Default: []string{"login"}, Allow: []options.URLParameterRule{{Value: &consent}, {Value: &selAcc}}},
+				{Name: "login_hint", Allow: []options.URLParameterRule{{Pattern: &hint}}},
+				{Name: "organization", Default: []string{"myorg"}},
+			}
 		}
 	}
 	if cfg.Structured {
